@@ -124,10 +124,22 @@ def gen_write_path(repo):
             r'None \| Some\(ServerCommand::Shutdown\) => return Err\(RequestError::Shutdown\), Some\(ServerCommand::ChangeDecoding\(x\)\) => \*decode = x, \} \} \}')
     if re.fullmatch(once, flat):
         shape = 'WriteOnceRacedAgainstCommands'
-    elif re.fullmatch(loop, flat):
-        shape = 'WriteRecreatedAfterEveryCommand'
     else:
-        raise ParseError('server/task.rs write_reply: body is none of the recognised shapes: ' + flat[:160])
+        # not the known text: classify by structure. Where is the write future created? If `io.write(` sits inside a
+        # `loop { .. }` body that also takes commands off the channel, every command that does not end the wait makes
+        # the loop go round and a NEW write future start from the first byte (textual variants of seeded c06_6 / c01_7)
+        writes = [m.start() for m in re.finditer(r'\bio\s*\.\s*write\s*\(', flat)]
+        if len(writes) != 1:
+            raise ParseError(f'server/task.rs write_reply: expected exactly one io.write(..), found {len(writes)}')
+        inside_loop = False
+        for m in re.finditer(r'\bloop\s*\{', flat):
+            blk, end = rp.block_after(flat, m.start())
+            if m.end() <= writes[0] < end and re.search(r'commands\s*\.\s*(recv|try_recv)\s*\(', blk):
+                inside_loop = True
+        if inside_loop:
+            shape = 'WriteRecreatedAfterEveryCommand'
+        else:
+            raise ParseError('server/task.rs write_reply: body is none of the recognised shapes: ' + flat[:160])
     calls = re.findall(r'write_reply\(io, \w+, &mut self\.commands, &mut self\.decode\)\.await\?', ' '.join(ssrc.split()))
     direct = re.findall(r'\bio\s*\.\s*write\s*\(', ssrc)
     if len(calls) < 1 or len(direct) != 1:
